@@ -23,6 +23,7 @@ F_OPT = 'F20'
 F_COLUMN_NONE = 'F34'
 F_DELETED_TARGET = 'F35'
 F_RETYPE_COLUMN = 'F41'
+F_STALE_COLUMN = 'F47'
 
 
 def rebuilt_tables(trace):
@@ -54,6 +55,17 @@ def touched_columns(muts):
             out.add((m['model'], m['field']))
         if m['t'] == 'AddField' and m['ftype'] in ('ForeignKey', 'OneToOneField'):
             out.add((m['model'], m['field']))
+    return out
+
+
+def renamed_columns(muts):
+    """new column names given to existing fields in this run"""
+    out = set()
+    for m in muts:
+        if m['t'] == 'RenameField':
+            out.add(m.get('db_column') or m['new'])
+        if m['t'] == 'ChangeField':
+            out.update(json.loads(v) for a, v in m['attrs'] if a == 'db_column' and v != 'null')
     return out
 
 
@@ -100,6 +112,10 @@ def classify(evolved, fresh, rebuilt, muts):
                 out.append((F_TABLE_LEVEL, '%s: table-level index %s lost (table rebuilt in this run)' % (t, ix[0])))
             elif multi and any(m['t'] == 'ChangeMeta' for m in muts) and rb:
                 out.append((F_TABLE_LEVEL, '%s: table-level index %s %s around a rebuild' % (t, ix[0], kind)))
+            elif multi and kind == 'extra' and any(m['t'] == 'ChangeMeta' for m in muts) and \
+                    set(ix[0]) & renamed_columns(muts):
+                out.append((F_STALE_COLUMN, '%s: table-level index %s is not dropped by ChangeMeta after one of its '
+                            'columns was renamed in the same run' % (t, ix[0])))
             elif not multi and (rb or idx_touch or renames):
                 out.append((F_SINGLE_INDEX, '%s: single-column index %s %s after a rebuild / index change / rename'
                             % (t, ix[0], kind)))
@@ -124,6 +140,13 @@ def crash_finding(exc, muts, rebuilt):
         return F_DELETED_TARGET, msg
     if any(m['t'] == 'ChangeField' and m.get('ftype') for m in muts) and 'has no column named' in str(exc):
         return F_RETYPE_COLUMN, msg
+    if isinstance(exc, AssertionError):
+        # change_column_attr_unique asserts that the unique index it is about to drop is known: after a
+        # RenameField of that very field the bookkeeping still names the old column (F18)
+        renamed = set((m['model'], m['new']) for m in muts if m['t'] == 'RenameField')
+        if any(m['t'] == 'ChangeField' and (m['model'], m['field']) in renamed and
+               any(a in ('unique', 'db_index') for a, _ in m['attrs']) for m in muts):
+            return F_SINGLE_INDEX, msg
     if 'no such index' in str(exc) or 'no such column' in str(exc):
         if any(m['t'] == 'ChangeMeta' for m in muts) or '__unnamed_constraint' in str(exc):
             return F_TABLE_LEVEL, msg
@@ -137,7 +160,11 @@ def gen_case(rng, hinted):
     spec = sigs.gen_spec(rng)
     models = dbrig.build_models(spec)
     sig = dbrig.sig_from_models(models)
-    muts, final = sigs.gen_sequence(rng, sig, 'vapp', rng.randint(1, 4))
+    kinds = None
+    if rng.random() < 0.25:
+        # primary-key renames followed by changes of the tables that refer to the model
+        kinds = ['RenamePK'] * 3 + ['AddField'] * 5 + ['ChangeField'] * 4 + ['DeleteField'] * 2 + ['RenameField']
+    muts, final = sigs.gen_sequence(rng, sig, 'vapp', rng.randint(1, 4), kinds=kinds)
     if final is None or not muts or dangling(final, set()):
         return None
     # renaming/deleting a field that a table-level Meta entry names leaves Meta pointing at a
@@ -174,6 +201,60 @@ def gen_case(rng, hinted):
         except Exception:
             return None
     return spec, muts, final
+
+
+def pk_family():
+    """deterministic family: the primary key of a referenced model gets a new name/column, then a
+    table that refers to it is rebuilt (every combination)"""
+    def fld(name, t, related=None, **attrs):
+        return {'name': name, 'type': t, 'attrs': attrs, 'related': related}
+    out = []
+    for pk in (fld('id', 'AutoField', primary_key=True), fld('code', 'CharField', primary_key=True, max_length=20)):
+        spec = {'apps': [{'id': 'vapp', 'models': [
+            {'name': 'Parent', 'table': 'vapp_parent', 'fields': [pk, fld('n', 'IntegerField', null=True)],
+             'unique_together': [], 'index_together': [], 'indexes': [], 'constraints': []},
+            {'name': 'Child', 'table': 'vapp_child', 'fields': [
+                fld('id', 'AutoField', primary_key=True), fld('a', 'IntegerField'),
+                fld('q', 'ForeignKey', related='vapp.Parent', null=True)],
+             'unique_together': [], 'index_together': [], 'indexes': [], 'constraints': []}]}]}
+        renames = [
+            {'t': 'RenameField', 'model': 'Parent', 'old': pk['name'], 'new': 'ident', 'db_column': None, 'db_table': None},
+            {'t': 'RenameField', 'model': 'Parent', 'old': pk['name'], 'new': 'ident', 'db_column': 'ident_col',
+             'db_table': None},
+            {'t': 'ChangeField', 'model': 'Parent', 'field': pk['name'], 'ftype': None, 'initial': None,
+             'attrs': [['db_column', '"k_col"']]}]
+        rebuilds = [
+            {'t': 'AddField', 'model': 'Child', 'field': 'm', 'ftype': 'IntegerField', 'initial': None,
+             'attrs': [['null', 'true']]},
+            {'t': 'ChangeField', 'model': 'Child', 'field': 'a', 'ftype': None, 'initial': None,
+             'attrs': [['null', 'true']]},
+            {'t': 'AddField', 'model': 'Child', 'field': 'p', 'ftype': 'ForeignKey', 'initial': None,
+             'attrs': [['null', 'true'], ['related_model', '"vapp.Parent"']]}]
+        for r in renames:
+            for b in rebuilds:
+                out.append((spec, [r, b]))
+    return out
+
+
+def family_case(spec, muts):
+    sig = dbrig.sig_from_models(dbrig.build_models(spec))
+    r = sigs.real_simulate(sig, 'vapp', [sigs.real_mutation(m) for m in muts])
+    if r[0] != 'ok':
+        return None
+    return spec, muts, r[1]
+
+
+def non_integer_fk(sig, m):
+    for f in m.field_sigs:
+        if f.related_model:
+            app, name = f.related_model.split('.')
+            a = sig.get_app_sig(app)
+            t = a.get_model_sig(name) if a is not None else None
+            if t is not None and any(x.get_attr_value('primary_key') and
+                                     x.field_type.__name__ not in ('AutoField', 'BigAutoField', 'IntegerField')
+                                     for x in t.field_sigs):
+                return True
+    return False
 
 
 def run_mode(spec, muts, stepwise):
@@ -223,10 +304,16 @@ def run(ctx):
     schema_reqs, schema_pend = [], []
     done = 0
     tries = 0
+    family = pk_family()
     while done < n and tries < n * 4 and ctx.time_left() > 25:
         tries += 1
-        hinted = ctx.rng.random() < 0.3
-        g = gen_case(ctx.rng, hinted)
+        if family:
+            hinted = False
+            g = family_case(*family.pop(0))
+            ctx.count('family:pk_rename_then_rebuild')
+        else:
+            hinted = ctx.rng.random() < 0.3
+            g = gen_case(ctx.rng, hinted)
         if g is None:
             continue
         spec, muts, final = g
@@ -282,6 +369,8 @@ def run(ctx):
             for m in a.model_sigs:
                 if m.index_sigs or m.constraint_sigs or m.table_name not in fresh:
                     continue      # Meta.indexes / constraints are opaque in the model
+                if non_integer_fk(final, m):
+                    continue      # the model types every foreign-key column as integer (DESIGN: modelled scope)
                 real = fresh[m.table_name]
                 mod = out['fresh'][m.table_name]
                 rc = sorted([c, v[0], v[1], v[2]] for c, v in real['columns'].items())
@@ -291,6 +380,9 @@ def run(ctx):
                 ok = (rc == mc and ri == mi and real['checks'] == sorted(mod['checks']))
                 ctx.corr_case('fresh_table', ok, case={'table': m.table_name}, model=mod,
                               impl={'columns': rc, 'indexes': ri, 'checks': real['checks']})
+                mf = sorted(out['fresh_fks'][m.table_name])
+                ctx.corr_case('fresh_foreign_keys', mf == sorted(real['fks']), case={'table': m.table_name},
+                              model=mf, impl=real['fks'])
                 # the `rebuilt` model against a table whose LAST statement group was a rebuild
                 if 'schema' in step and m.table_name in step['rebuilt'] and m.table_name in step['schema'] and \
                         step['rebuilt'][m.table_name] >= step['trace_len'] - 6:
@@ -301,6 +393,9 @@ def run(ctx):
                            ev['checks'] == sorted(mr['checks']))
                     ctx.corr_case('rebuilt_table(columns,checks)', ok2, case={'table': m.table_name}, model=mr,
                                   impl={'columns': ec, 'checks': ev['checks']})
+                    mrf = sorted(out['rebuilt_fks'][m.table_name])
+                    ctx.corr_case('rebuilt_foreign_keys', mrf == sorted(ev['fks']), case={'table': m.table_name},
+                                  model=mrf, impl=ev['fks'])
     for key, ((fid, text), rep) in sorted(found.items(), key=lambda kv: str(kv[0])):
         ctx.fail(fid, text, rep)
 
